@@ -8,8 +8,9 @@ AV (abstract value): JSON scalar | {"hex": ..} bytes | {"dt": us} | {"td": us} |
 The four ways of setting of the property are kwargs (constructor), sets (attribute assignment, possibly through a
 path of lazily created sub-messages), parse (bytes written by the independent writer wiregen.write_records) and from_dict.
 
-T2  the history is run on the real classes and on the model (construct / assign_path / parse_into of coq/Model,
-    evaluated by vm_compute): raw snapshot, bytes, is_set vector and the value every field reads as are compared.
+T2  the history is run on the real classes and on the model (construct / assign_path / parse_into of coq/Model, and
+    Model/Json.v from_dict_cls / from_dict_inst for a from_dict history, evaluated by vm_compute): raw snapshot, bytes,
+    is_set vector and the value every field reads as are compared.
 Oracle  the clauses of C06 evaluated on the real object with the independent record reader wiregen.read_records.
 T3  the spec-level presence predicates (has_record / last_member, the Python twin of coq/Spec/C06Wire.v) against
     google.protobuf's HasField / WhichOneof on the same bytes, and betterproto's reports against both.
@@ -21,12 +22,12 @@ import random
 import struct
 from datetime import datetime, timedelta, timezone
 
-from .. import lib, msggen, wiregen
+from .. import jsongen, lib, msggen, wiregen
 from ..msggen import NBUILTIN, EPOCH
 
 IMPORTS = ("Model.Types Model.Object Model.Eq Model.Encode Model.Decode Model.Canon Model.WellFormed Model.C06Obs "
-           "Spec.C06Wire gen.Tables")
-EXTRA_TARGETS = ["Model/Canon.vo", "Model/Decode.vo", "Model/C06Obs.vo", "Spec/C06Wire.vo"]
+           "Model.Json Spec.C06Wire gen.Tables")
+EXTRA_TARGETS = ["Model/Canon.vo", "Model/Decode.vo", "Model/C06Obs.vo", "Model/Json.vo", "Spec/C06Wire.vo"]
 
 TRUSTED = [
     "Coq 8.16.1 kernel and vm_compute (no native_compute); full .vo build via coq_makefile",
@@ -43,7 +44,10 @@ TRUSTED = [
     "Python side: harness/msggen.py (schemas built with the public field API, snapshots through object.__getattribute__), "
     "harness/wiregen.py (independent record reader / writer), the AV -> object / JSON / records converters of this file, "
     "the in-memory construction of the google.protobuf twin classes (proto3_optional + synthetic oneofs, wrappers, Timestamp/Duration)",
-    "from_dict is not modelled in Coq here (another property owns Model/FromDict): its column of the matrix is checked by the oracle only",
+    "from_dict: the model is coq/Model/Json.v from_dict_cls / from_dict_inst (owned and validated by C04's check on to_dict outputs); "
+    "here every from_dict cell of the matrix (mappings with explicit defaults, {} for sub-messages, absent keys; class and instance "
+    "form) is additionally evaluated on that model by vm_compute and compared with the real object (snapshot, bytes, is_set, reads); "
+    "coq/Model/C06Dict.v (key_index / dict_lookup / given_order / singular_json) is vocabulary of the theorems only",
     "Python object aliasing is modelled only for the one pattern the property needs (assign_path writes the mutated child back "
     "into its parent); oracles: google.protobuf 7.x (upb)",
 ]
@@ -60,7 +64,11 @@ RULE = ("the systematic schema (msggen.matrix_schema: every scalar kind, enum, m
         "oneof member, map value, wrapper}) enumerated exhaustively: every field x {never set, type default, non-default} x {constructor, "
         "attribute assignment, parse, from_dict (class and instance form)}; then random histories over the systematic and random schemas: "
         "random subsets of fields set by kwargs and assignments (values default / boundary / typical, nested messages, assignments through "
-        "paths of lazily created sub-messages of depth 1-3), optionally followed by parse() of spec-written records; decoder streams: per "
+        "paths of lazily created sub-messages of depth 1-3), optionally followed by parse() of spec-written records; from_dict in "
+        "combination: every pair of members of every oneof group given in one mapping (both orders, class and instance form, default "
+        "values: the class form must select the last in declaration order, the instance form the last in dict order, and emit exactly "
+        "that member) and random mappings over random subsets of the fields (default / random values, explicit None, snake or camel "
+        "keys, random key order, either form), all compared with Model/Json.v from_dict_cls / from_dict_inst; decoder streams: per "
         "class, random sequences of records for its explicit-presence fields with explicit defaults, duplicates, several members of one "
         "oneof, wire-type substitutions, unknown fields, padded varints. non-trivial = at least one field set / one record; "
         "distinct = distinct (schema, class, history) resp. (class, bytes)")
@@ -413,9 +421,25 @@ def run_history(schema, H):
     kwlits, oplits = [], []
     try:
         if H.get("from_dict"):
+            # the fourth way: the model is Model/Json.v from_dict_cls / from_dict_inst (the functions the C06_*_from_dict
+            # theorems are about), evaluated on the same mapping
             fd = H["from_dict"]
-            r.m = c.py.from_dict(fd["dict"]) if fd["form"] == "class" else c.py().from_dict(fd["dict"])
-            r.snapshot = msggen.obj_literal(schema, r.m)
+            si = H.get("_si", 0)
+            try:
+                jl = jsongen.json_literal(fd["dict"])
+                if fd["form"] == "class":
+                    r.model = f"(c06_obs sc{si} (from_dict_cls sc{si} {cidx}%nat {jl}))"
+                else:
+                    r.model = f"(c06_obs sc{si} (from_dict_inst sc{si} (new sc{si} {cidx}%nat) {jl}))"
+            except msggen.Unmodellable:
+                r.model = None
+            try:
+                r.m = c.py.from_dict(fd["dict"]) if fd["form"] == "class" else c.py().from_dict(fd["dict"])
+                r.snapshot = msggen.obj_literal(schema, r.m)
+            except msggen.Unmodellable as e:
+                r.error, r.m, r.model = "unmodellable: " + str(e), None, None
+            except Exception as e:  # noqa
+                r.error, r.m = f"{type(e).__name__}: {e}", None
             return r
         kwargs = {}
         for n, av in H.get("kwargs", {}).items():
@@ -910,6 +934,58 @@ def random_history(schema, sref, rng):
     return H
 
 
+def oneof_pair_histories(schema, sref):
+    """from_dict of a mapping that gives TWO members of one oneof group, both orders, both forms, default values:
+    the class form keeps the last member in DECLARATION order (the constructor), the instance form the last in DICT order
+    (setattr); the winner is emitted even with its default, the other not at all
+    (C06_explicit_emit_from_dict / C06_explicit_emit_from_dict_inst).  Returns (history, winner name, loser name)."""
+    out = []
+    for ci, c in enumerate(schema.classes):
+        groups = sorted({f.group for f in c.fields if f.group is not None})
+        for g in groups:
+            mem = [f for f in c.fields if f.group == g]
+            pairs_ = [(mem[k], mem[k + 1]) for k in range(len(mem) - 1)] + ([(mem[0], mem[-1])] if len(mem) > 2 else [])
+            for fa, fb in pairs_:          # fa is declared before fb
+                try:
+                    ja, jb = field_json(schema, fa, field_default_av(fa)), field_json(schema, fb, field_default_av(fb))
+                except NoJson:
+                    continue
+                for first, second in ((fa, fb), (fb, fa)):
+                    d = {first.name: ja if first is fa else jb, second.name: jb if second is fb else ja}
+                    for form in ("class", "instance"):
+                        win = fb if form == "class" else second
+                        lose = fa if win is fb else fb
+                        out.append(({"schema": sref, "class": ci, "from_dict": {"form": form, "dict": d}}, win.name, lose.name))
+    return out
+
+
+def random_from_dict_history(schema, sref, rng):
+    """the fourth way in combination: a mapping that gives a random subset of the fields (several members of one oneof
+    included), default or random values, an occasional explicit None, keys in random order and either casing, through
+    the class form or the instance form"""
+    import betterproto as bp
+    ci = rng.randrange(len(schema.classes))
+    c = schema.classes[ci]
+    H = {"schema": sref, "class": ci}
+    p = rng.choice([0.2, 0.5, 0.8])
+    items = []
+    for f in c.fields:
+        if rng.random() >= p:
+            continue
+        av = field_default_av(f) if rng.random() < 0.4 else gen_field_av(schema, f, rng, 0)
+        try:
+            j = field_json(schema, f, av)
+        except NoJson:
+            continue
+        if rng.random() < 0.1:
+            j = None
+        key = f.name if rng.random() < 0.7 else bp.Casing.CAMEL(f.name).rstrip("_")
+        items.append((key, j))
+    rng.shuffle(items)
+    H["from_dict"] = {"form": rng.choice(["class", "instance"]), "dict": dict(items)}
+    return H
+
+
 CORPUS = os.path.join(lib.VERIF, "corpus", "C06.json")
 
 
@@ -1091,6 +1167,38 @@ def run(ctx):
             ctx.count("generator_error:" + type(e).__name__)
             continue
         do_history(si, H, None)
+    # two members of one oneof group in one mapping, systematically (matrix schema: all; random schemas: all they have)
+    for si in range(len(schemas)):
+        for H, win, lose in oneof_pair_histories(schemas[si], srefs[si]):
+            r = do_history(si, H, None)
+            if r is None or r.m is None:
+                continue
+            ctx.count("from_dict_oneof_pair:" + H["from_dict"]["form"])
+            c = schemas[si].classes[H["class"]]
+            fw, fl = fld(c, win), fld(c, lose)
+            sel = bp.which_one_of(r.m, f"g{fw.group}")[0]
+            try:
+                nums = [r_[0] for r_ in wiregen.read_records(bytes(r.m))]
+            except Exception:  # noqa
+                nums = None
+            if sel != win or nums != [fw.number]:
+                fail_oracle(f"from_dict ({H['from_dict']['form']} form) of a mapping giving the oneof members {list(H['from_dict']['dict'])}: "
+                            f"which_one_of = {sel!r}, record numbers {nums}; expected {win!r} selected and exactly one record, number {fw.number}",
+                            H, None)
+    for k in range(250 if not ctx.thorough else 3000):
+        if broken():
+            break
+        si = 0 if rng.random() < 0.5 else rng.randrange(len(schemas))
+        try:
+            H = random_from_dict_history(schemas[si], srefs[si], rng)
+        except Exception as e:  # noqa
+            ctx.count("generator_error:" + type(e).__name__)
+            continue
+        r = do_history(si, H, None)
+        if r is not None and r.m is not None:
+            ctx.count("from_dict_combination:" + H["from_dict"]["form"])
+        elif r is not None and r.error:
+            ctx.count("from_dict_combination_raises:" + r.error.split(":")[0])
 
     # ------------------------------------------------------------------ decoder streams aimed at presence (model + T3 + spec twin)
     nstream = 500 if not ctx.thorough else 6000
